@@ -116,6 +116,10 @@ impl Stdfs {
         }
         for entry in Stdfs::entries(src.path())?.min_depth(1).sort_by_name().dirs() {
             let entry = entry?;
+            // Link exclusion: is_dir/is_file of a link are false, so it is not listed as either
+            if entry.is_symlink() {
+                continue;
+            }
             paths.push(entry.path_buf());
         }
         Ok(paths)
@@ -149,6 +153,10 @@ impl Stdfs {
         }
         for entry in Stdfs::entries(src.path())?.min_depth(1).sort_by_name().files() {
             let entry = entry?;
+            // Link exclusion: is_dir/is_file of a link are false, so it is not listed as either
+            if entry.is_symlink() {
+                continue;
+            }
             paths.push(entry.path_buf());
         }
         Ok(paths)
@@ -702,6 +710,10 @@ impl Stdfs {
         }
         for entry in Stdfs::entries(path)?.min_depth(1).max_depth(1).sort_by_name().dirs() {
             let entry = entry?;
+            // Link exclusion: is_dir/is_file of a link are false, so it is not listed as either
+            if entry.is_symlink() {
+                continue;
+            }
             paths.push(entry.path_buf());
         }
         Ok(paths)
@@ -797,6 +809,10 @@ impl Stdfs {
         }
         for entry in Stdfs::entries(path)?.min_depth(1).max_depth(1).sort_by_name().files() {
             let entry = entry?;
+            // Link exclusion: is_dir/is_file of a link are false, so it is not listed as either
+            if entry.is_symlink() {
+                continue;
+            }
             paths.push(entry.path_buf());
         }
         Ok(paths)
